@@ -586,6 +586,121 @@ func manyShort(id string, seed uint64, n int) runner.Result {
 	return res
 }
 
+// closedRoute: the application closes a routed listener while the multiplexer keeps running. From then
+// on no route is registered for that prefix: connections that start with it belong to the default
+// listener, prefix included, until the prefix is registered again; the other routes are not affected.
+func closedRoute(id string, seed uint64) runner.Result {
+	r := &payload.SplitMix{S: seed}
+	plen := []int{1, 4, 8}[r.Intn(3)]
+	nroutes := 1 + r.Intn(3)
+	victim := r.Intn(nroutes)
+	again := r.Intn(2) == 0
+	base := newBase()
+	mux := drpcmigrate.NewListenMux(base, plen)
+	ctx, cancel := context.WithCancel(context.Background())
+	defer cancel()
+	mkPrefix := func(i int) string { return string(bytes.Repeat([]byte{byte('A' + i)}, plen)) }
+	var mu sync.Mutex
+	got := map[string][]byte{}
+	accept := func(name string, l net.Listener) *rig.Op {
+		return rig.Go("accept:"+name, func() (interface{}, error) {
+			for {
+				c, err := l.Accept()
+				if err != nil {
+					return nil, err
+				}
+				data, _ := readAllSmall(c, []int{512})
+				mu.Lock()
+				got[c.LocalAddr().String()+" via "+name] = data
+				mu.Unlock()
+				census.Bump()
+			}
+		})
+	}
+	var routes []net.Listener
+	for i := 0; i < nroutes; i++ {
+		routes = append(routes, mux.Route(mkPrefix(i)))
+		accept("route:"+mkPrefix(i), routes[i])
+	}
+	accept("default", mux.Default())
+	runOp := rig.Go("Run", func() (interface{}, error) { return nil, mux.Run(ctx) })
+	steps := []string{fmt.Sprintf("plen=%d routes=%d", plen, nroutes)}
+	var fails []string
+	nconn := 0
+	send := func(prefix, want string, wantPrefix bool) {
+		pair := simnet.New(simnet.Opts{Cap: -1})
+		pair.B.Role = fmt.Sprintf("srv%d", nconn)
+		nconn++
+		pl := payload.Make(uint64(nconn), 0, 0, 0, r.Intn(60))
+		pair.A.Write(append([]byte(prefix), pl...))
+		pair.A.Close()
+		base.ch <- pair.B
+		steps = append(steps, fmt.Sprintf("conn(%s)", prefix))
+		if ok, _ := census.Quiesce(rig.Watchdog); !ok {
+			fails = append(fails, "watchdog")
+			return
+		}
+		exp := pl
+		if wantPrefix {
+			exp = append([]byte(prefix), pl...)
+		}
+		mu.Lock()
+		data, ok := got[pair.B.Role+" via "+want]
+		var elsewhere []string
+		for k := range got {
+			if strings.HasPrefix(k, pair.B.Role+" via ") && k != pair.B.Role+" via "+want {
+				elsewhere = append(elsewhere, k)
+			}
+		}
+		mu.Unlock()
+		switch {
+		case len(elsewhere) > 0:
+			fails = append(fails, fmt.Sprintf("the connection with prefix %q belongs to %s and was delivered as %v", prefix, want, elsewhere))
+		case !ok:
+			fails = append(fails, fmt.Sprintf("the connection with prefix %q belongs to %s and was not delivered to it at quiescence while the multiplexer runs (closed by the multiplexer: %v)", prefix, want, pair.B.CloseCount() > 0))
+		case !bytes.Equal(data, exp):
+			fails = append(fails, fmt.Sprintf("the connection with prefix %q: %s read %d bytes %q, want %d bytes (prefix included: %v)", prefix, want, len(data), clip(data), len(exp), wantPrefix))
+		}
+	}
+	vp := mkPrefix(victim)
+	if r.Intn(2) == 0 {
+		send(vp, "route:"+vp, false)
+	}
+	routes[victim].Close()
+	steps = append(steps, "Close(route:"+vp+")")
+	census.Quiesce(rig.Watchdog)
+	for k := 0; k < 1+r.Intn(3) && len(fails) == 0; k++ {
+		send(vp, "default", true)
+		if nroutes > 1 && len(fails) == 0 {
+			o := mkPrefix((victim + 1) % nroutes)
+			send(o, "route:"+o, false)
+		}
+	}
+	if again && len(fails) == 0 {
+		accept("route:"+vp+"#2", mux.Route(vp))
+		steps = append(steps, "Route-again("+vp+")")
+		census.Quiesce(rig.Watchdog)
+		send(vp, "route:"+vp+"#2", false)
+		send(string(bytes.Repeat([]byte{'z'}, plen)), "default", true)
+	}
+	cancel()
+	census.Quiesce(rig.Watchdog)
+	if len(fails) == 1 && fails[0] == "watchdog" {
+		return runner.Inconcl(id, "watchdog")
+	}
+	if len(fails) == 0 && !runOp.Returned() {
+		fails = append(fails, "Run has not returned after the multiplexer was stopped")
+	}
+	hist := strings.Join(steps, " ")
+	if len(fails) > 0 {
+		return runner.Violation(id, "mux:closed-route:"+keyOf(fails[0]), hist+"\n"+strings.Join(fails, "\n"))
+	}
+	res := runner.Hold(id, hist, true)
+	res.Events = int64(nconn)
+	res.Stats = map[string]int64{"conns": int64(nconn), "delivered": int64(nconn)}
+	return res
+}
+
 // firstMessageOfPrefixLength: a client of the default listener whose first message is exactly as long as
 // the prefix (or one byte longer, or shorter and then completed) and who then waits for an answer
 // without sending more. The server reads with a large buffer: it must get those bytes while the
@@ -1124,6 +1239,10 @@ func gen(tier string, seed uint64) []runner.Scenario {
 		if i%20 == 0 {
 			id5 := fmt.Sprintf("first-message-of-prefix-length/%d", i)
 			out = append(out, runner.Scenario{ID: id5, Run: func() runner.Result { return firstMessageOfPrefixLength(id5, payload.Hash(seed, 0x165, uint64(i))) }})
+		}
+		if i%12 == 0 {
+			id7 := fmt.Sprintf("closed-route/%d", i)
+			out = append(out, runner.Scenario{ID: id7, Run: func() runner.Result { return closedRoute(id7, payload.Hash(seed, 0x167, uint64(i))) }})
 		}
 		if i%10 == 0 {
 			id4 := fmt.Sprintf("header-with-io-copy/%d", i)
